@@ -113,3 +113,27 @@ contract(PO + '.remove_person', types={'name_id': NID},
                                            'valmap(self.cache._db)[k] == old(valmap(self.cache._db))[k]), "Val")')],
          raises={'KeyError': 'not has_key(self.cache._db, code_of(name_id))'},
          modifies=['dict(self.cache._db)'], clauses_from={'C19': ['C19-subject-gone', 'C19-others-untouched']})
+contract(CA + '.entities', types={'name_id': NID}, returns='List(Str)',
+         requires=['forall(lambda k: implies(has_key(self._db, k), typed(self._db[k], "Dict(Str, %s)")), "Val")' % ENTRY],
+         ensures=[('C19-exactly-the-sources-of-the-subject',
+                   'fresh(result) and forall(lambda e: contains(seq(result), e) == '
+                   'has_key(as_type(self._db[code_of(name_id)], "Dict(Str, Any)"), e), "Val")'),
+                  ('C19-one-entry-per-source', 'len(result) == len(as_type(self._db[code_of(name_id)], "Dict(Str, Any)"))')],
+         raises={'KeyError': 'not has_key(self._db, code_of(name_id))'}, modifies=[],
+         clauses_from={'C19': ['C19-exactly-the-sources-of-the-subject']})
+for _w in ('issuers_of_info', 'sources'):
+    contract(PO + '.' + _w, types={'name_id': NID}, returns='List(Str)', requires=[_DB_OK],
+             ensures=[('C19-exactly-the-sources-of-the-subject',
+                       'fresh(result) and forall(lambda e: contains(seq(result), e) == '
+                       'has_key(as_type(self.cache._db[code_of(name_id)], "Dict(Str, Any)"), e), "Val")')],
+             raises={'KeyError': 'not has_key(self.cache._db, code_of(name_id))'}, modifies=[],
+             clauses_from={'C19': ['C19-exactly-the-sources-of-the-subject']})
+contract(PO + '.stale_sources_for_person', types={'name_id': NID, 'sources': 'Opt(List(Str))'}, returns='List(Str)', requires=[_DB_OK],
+         ensures=[# only sources that were asked about (or, when none were named, sources the cache knows for this subject) are reported;
+                  # WHICH of them are reported (those not active) is decided inside a filtering comprehension, which the engine
+                  # over-approximates: not decided here, exercised by cache_history
+                  ('C19-stale-sources-are-sources-of-the-subject',
+                   'fresh(result) and forall(lambda e: implies(contains(seq(result), e), '
+                   'ite(truthy(sources), contains(seq(sources), e), has_key(as_type(self.cache._db[code_of(name_id)], "Dict(Str, Any)"), e))), "Val")')],
+         raises={'KeyError': 'True', 'ValueError': 'True', 'AttributeError': 'True', 'TypeError': 'True'}, modifies=[],
+         clauses_from={'C19': ['C19-stale-sources-are-sources-of-the-subject']})
